@@ -63,9 +63,57 @@ class MutationAnalysis:
             for fi in m.all_functions:
                 self.funcs[fi.qualname] = fi
                 self.summaries[fi.qualname] = Summary()
+        self.returns_float: Dict[str, bool] = {q: False for q in self.funcs}
+        self.float_names: Dict[str, Set[str]] = {q: set() for q in self.funcs}
+        self._float_fixpoint()
         self._fixpoint()
 
     # ------------------------------------------------------------------
+    def _float_fixpoint(self):
+        """Which locals / return values are certainly float valued (a true division, a float literal, a float
+        function, or arithmetic over such values), propagated through package calls."""
+        for _ in range(6):
+            changed = False
+            for q, fi in self.funcs.items():
+                names = self.float_names[q]
+                for st in ast.walk(fi.node):
+                    if isinstance(st, ast.Assign):
+                        if self._is_float_expr(fi, st.value, names):
+                            for t in st.targets:
+                                for n in ast.walk(t):
+                                    if isinstance(n, ast.Name) and isinstance(n.ctx, ast.Store) and n.id not in names:
+                                        names.add(n.id)
+                                        changed = True
+                    elif isinstance(st, ast.AugAssign) and isinstance(st.target, ast.Name):
+                        if (isinstance(st.op, ast.Div) or self._is_float_expr(fi, st.value, names)) and st.target.id not in names:
+                            names.add(st.target.id)
+                            changed = True
+                rf = any(isinstance(st, ast.Return) and st.value is not None and self._is_float_expr(fi, st.value, names) for st in ast.walk(fi.node))
+                if rf and not self.returns_float[q]:
+                    self.returns_float[q] = True
+                    changed = True
+            if not changed:
+                break
+
+    def _is_float_expr(self, fi: FuncInfo, e, names: Set[str]) -> bool:
+        if _float_valued(e):
+            return True
+        if isinstance(e, ast.Name):
+            return e.id in names
+        if isinstance(e, ast.BinOp):
+            return self._is_float_expr(fi, e.left, names) or self._is_float_expr(fi, e.right, names)
+        if isinstance(e, ast.UnaryOp):
+            return self._is_float_expr(fi, e.operand, names)
+        if isinstance(e, ast.Tuple):
+            return any(self._is_float_expr(fi, x, names) for x in e.elts)
+        if isinstance(e, ast.IfExp):
+            return self._is_float_expr(fi, e.body, names) or self._is_float_expr(fi, e.orelse, names)
+        if isinstance(e, ast.Call):
+            r = self.lk.resolve(fi.module, e.func)
+            if r.kind == "func":
+                return self.returns_float.get(r.obj.qualname, False)
+        return False
+
     def _is_tracked_param(self, fi: FuncInfo, p: str) -> bool:
         """Array / list parameters (C20 speaks of 'array and list arguments')."""
         if p == "self":
@@ -392,7 +440,8 @@ class MutationAnalysis:
                 b = base
                 while isinstance(b, ast.Subscript):
                     b = b.value
-                if isinstance(b, ast.Name) and b.id in self._like and value_node is not None and _float_valued(value_node):
+                if isinstance(b, ast.Name) and b.id in self._like and value_node is not None and \
+                        self._is_float_expr(fi, value_node, self.float_names.get(fi.qualname, set())):
                     emit("dtype", self._like[b.id], t,
                          "float-valued store into an array that inherits the argument's dtype (int64 input truncates)")
             elif isinstance(t, (ast.Tuple, ast.List)):
